@@ -34,6 +34,13 @@ func Init(job string) (*LQClient, error) {
 		return nil, err
 	}
 
+	// URLs still marked as claimed were handed out by a previous process of this job
+	// that was killed or stopped before finishing them: make them available again.
+	if _, err := dbWrite.Exec("UPDATE urls SET status = 'FRESH' WHERE status = 'CLAIMED'"); err != nil {
+		logger.Error("error resetting claimed URLs in lq database", "err", err.Error(), "func", "lq.Init")
+		return nil, err
+	}
+
 	dbWriteSqlc := sqlc_model.New(dbWrite)
 
 	return &LQClient{
